@@ -325,7 +325,14 @@ Restart(E, P, S, M) ==
        IF e \in E THEN (IF S.link[e] = "closed" \/ link[e] = "closed" \/ Stale(S, M, e) THEN "closed" ELSE "down")
        ELSE IF e \in P /\ link[e] # "closed" THEN "down" ELSE link[e]]
   /\ cnt' = [e \in DOMAIN cnt |-> IF e \in E THEN S.cnt[e] ELSE cnt[e]]
-  /\ hs' = [e \in DOMAIN hs |-> IF e \in E THEN Forgotten(S.hs[e]) ELSE IF e \in P THEN Forgotten(hs[e]) ELSE hs[e]]
+  \* (a stale endpoint is closed from its monitor: what is still pending there is what the monitor holds -- the
+  \*  state reached before the crash if that monitor is current, else possibly also what the snapshot remembers)
+  /\ hs' = [e \in DOMAIN hs |-> IF e \in E THEN (IF Stale(S, M, e)
+                                                 THEN (IF M[e] >= mon[e].last THEN Forgotten(hs[e])
+                                                       ELSE Forgotten(S.hs[e]) \cup
+                                                            {h \in Forgotten(hs[e]) : \A g \in Forgotten(S.hs[e]) : ~(g.dir = h.dir /\ g.id = h.id)})
+                                                 ELSE Forgotten(S.hs[e]))
+                                 ELSE IF e \in P THEN Forgotten(hs[e]) ELSE hs[e]]
   /\ fees' = [e \in DOMAIN fees |-> IF e \in E THEN SelectSeq(S.fees[e], LAMBDA f : f.st > 0)
                                      ELSE IF e \in P THEN SelectSeq(fees[e], LAMBDA f : f.st > 0) ELSE fees[e]]
   /\ feeBase' = [e \in DOMAIN feeBase |-> IF e \in E THEN S.feeBase[e] ELSE feeBase[e]]
